@@ -1,5 +1,5 @@
 (* C11 proofs, part 3: dealing files / row groups to p >= 1 partitions loses and repeats nothing. *)
-From Coq Require Import List Arith Bool Lia Permutation.
+From Coq Require Import List Arith Bool Lia Permutation NArith.
 From GV Require Import model.MultiFile.
 Import ListNotations.
 
@@ -181,4 +181,65 @@ Example multifile_hyps_sat : 1 <= 4 /\ NoDup [10; 11; 12; 13; 14; 15] /\
 Proof.
   split; [lia|]. split; [|split; vm_compute; reflexivity].
   repeat constructor; cbn; intuition discriminate.
+Qed.
+
+(* ---- no carry-over between the files a partition reads one after the other ---- *)
+Lemma resize_length : forall buf size, length (resize buf size) = size.
+Proof.
+  intros buf size. unfold resize. rewrite app_length, firstn_length, repeat_length.
+  destruct (Nat.le_ge_cases size (length buf)); lia.
+Qed.
+
+Lemma read_into_exact : forall buf file, length buf = length file -> read_into buf file = file.
+Proof.
+  intros buf file H. unfold read_into. rewrite H, firstn_all, <- H, skipn_all, app_nil_r. reflexivity.
+Qed.
+
+Lemma text_step_content : forall buf file, text_step true buf file = (file, Some file).
+Proof.
+  intros buf file. unfold text_step.
+  rewrite (read_into_exact (resize buf (length file)) file (resize_length buf (length file))). reflexivity.
+Qed.
+
+(* T: whatever the buffer holds from earlier files, the row emitted for a file is that file *)
+Lemma text_reader_no_carry_over : forall buf files, text_reader true buf files = map Some files.
+Proof.
+  intros buf files; revert buf; induction files as [|f r IH]; intro buf; [reflexivity|].
+  cbn [text_reader map]. rewrite text_step_content. rewrite IH. reflexivity.
+Qed.
+
+Lemma text_reader_no_content : forall files, text_reader false [] files = map (fun _ => None) files.
+Proof.
+  induction files as [|f r IH]; [reflexivity|].
+  cbn [text_reader map text_step]. replace (read_into [] f) with (@nil N); [rewrite IH; reflexivity|].
+  unfold read_into. cbn [length firstn]. rewrite skipn_nil. reflexivity.
+Qed.
+
+(* the row of file i depends only on file i: two queues that agree at position i give the same row *)
+Lemma text_reader_row_local : forall buf1 buf2 files1 files2 i f,
+  nth_error files1 i = Some f -> nth_error files2 i = Some f ->
+  nth_error (text_reader true buf1 files1) i = nth_error (text_reader true buf2 files2) i.
+Proof.
+  intros buf1 buf2 files1 files2 i f H1 H2. rewrite !text_reader_no_carry_over.
+  rewrite (map_nth_error Some i files1 H1), (map_nth_error Some i files2 H2). reflexivity.
+Qed.
+
+Lemma text_multifile_union : forall p files, 1 <= p ->
+  Permutation (text_multi true p files) (map Some files).
+Proof.
+  intros p files Hp. destruct p as [|q]; [lia|]. unfold text_multi, text_part.
+  assert (E : forall ks, flat_map (fun k => text_reader true [] (deal (S q) k files)) ks
+                         = map Some (flat_map (fun k => deal (S q) k files) ks)).
+  { induction ks as [|k ks IHk]; cbn [flat_map map]; [reflexivity|].
+    rewrite text_reader_no_carry_over, map_app, IHk. reflexivity. }
+  rewrite E. apply Permutation_map. apply deal_union.
+Qed.
+
+(* REFUTED for the grow-only buffer: a 3-byte file followed by a 1-byte file in one queue *)
+Lemma text_reader_grow_refuted :
+  exists files, text_reader_grow [] files <> map Some files /\
+                text_reader_grow [] files = [Some [1; 2; 3]; Some [9; 2; 3]]%N.
+Proof.
+  exists [[1; 2; 3]; [9]]%N. split; [|vm_compute; reflexivity].
+  vm_compute. intro H. discriminate H.
 Qed.
